@@ -94,6 +94,7 @@ func TestVerifReplayFormat(t *testing.T) {
 		maxLines = 4
 	}
 	n := 0
+	snippets := verifFormatSnippets
 	var rec func(prefix string, k int) bool
 	rec = func(prefix string, k int) bool {
 		n++
@@ -104,13 +105,18 @@ func TestVerifReplayFormat(t *testing.T) {
 		if k == 0 {
 			return true
 		}
-		for _, s := range verifFormatSnippets {
+		for _, s := range snippets {
 			if !rec(prefix+s, k-1) {
 				return false
 			}
 		}
 		return true
 	}
-	rec("", maxLines)
+	// all snippets up to 3 lines; in the thorough tier additionally 4 lines over the snippets
+	// without the three very long ones (which only matter for the width of a gap)
+	if rec("", 3) && maxLines > 3 {
+		snippets = verifFormatSnippets[:len(verifFormatSnippets)-3]
+		rec("", maxLines)
+	}
 	fmt.Printf("STANDIN inputs=%d bound=\"every sequence of at most %d lines from %d line snippets\"\n", n, maxLines, len(verifFormatSnippets))
 }
